@@ -1,7 +1,7 @@
 """Which harness modules decide which property, with the kani flags, bounds and claim text that
 go into the evidence file. Harness lists are read from the module source on every run."""
 
-NODEF = ["--no-default-checks", "--no-assertion-reach-checks"]          # functional harnesses: assertions + unwinding assertions only
+NODEF = ["--no-memory-safety-checks", "--no-overflow-checks", "--no-undefined-function-checks", "--no-assertion-reach-checks"]  # functional harnesses: assertions + UNWINDING assertions stay on (--no-default-checks would also drop the unwinding checks and silently truncate loops)
 STUB = ["-Z", "stubbing"]
 
 CRATES = {
@@ -125,9 +125,15 @@ PROPS["C20"] = {
     "design_ref": "DESIGN.md section 4 C20",
 }
 
+# index of the fixed (side to move, enemy king square) shape = turn*64 + square. White to move with the
+# enemy king on e8 = 60, Black to move with the enemy king on e1 = 64 + 4 = 68.
+C02_FAM = {"pattern": r"_(?:ek|k)_(\d+)$", "count": 1, "always": {"*": [60]}, "thorough_all": False, "thorough_count": 6}
+C02_GRP = {"crate": "core", "module": "c02", "flags": NODEF + STUB, "timeout_q": 1200, "timeout_t": 3000, "mem_q": 8}
 PROPS["C04"] = {
     "title": "Position hash is a pure function of the position",
-    "groups": [{"crate": "core", "module": "c04", "timeout_q": 900, "timeout_t": 3000}],
+    "groups": [{"crate": "core", "module": "c04", "timeout_q": 900, "timeout_t": 3000},
+               # the make-move step of the hash invariant lives in the C02 successor harnesses (hash delta assertion)
+               dict(C02_GRP, only="^c02_.*_ek_", seeded_family=dict(C02_FAM, count=0))],
     "functions": ["chess_lookup::{zobrist,castle_rights_zobrist,en_passant_zobrist,turn_zobrist} over the real key tables",
                   "chess_movegen::Board::{zobrist,standard}, PartialEq/Hash for Board, BoardBuilder::{place,remove}",
                   "make-move and parser parts of the invariant: see C02/C03 (c02 harnesses assert piece_hash == spec) and C05/C06"],
@@ -141,12 +147,50 @@ PROPS["C04"] = {
     "design_ref": "DESIGN.md section 4 C04",
 }
 
+C02_STUBS = ["chess_lookup::{between,rook_rays,bishop_rays,knight_moves,pawn_attacks_moves} -> loop-free geometry (spec/fast.rs), proven equal to the loop definitions by the lemmas harnesses and to the real tables by C09",
+             "chess_movegen::Board::is_legal -> the reference rules' answer for exactly that board and move (licensed by C01/C10); the stub asserts it is asked about the right board and move",
+             "chess_lookup::zobrist -> injective abstract key function in the make-move queries (CBMC over-approximates symbolic reads of the real key table inside these large queries: spurious, non-replaying counterexamples); the real key table is decided in C04's own harnesses"]
+C02_ASSUME = ["validity predicate V (C06's list + no pawn on rank 1/8) on the pre-state", "clock values < 65535 (the property's own bound)",
+              "<= 8 of the mover's sliders aligned with the enemy king after the move (loop bound of the incremental check/pin code; unwinding assertions on)"]
+C02_BOUNDS_Q = ("per query: side to move and ENEMY king square concrete (index = turn*64+square), everything else symbolic: all placements of all other pieces incl. the mover's king, rights, en-passant file, clocks, the move (from,to,promotion - legal AND illegal triples) "
+                "and the pre-state's cached pin/check/hash values. quick: 6 piece kinds x {White to move, enemy king e8} + 1 VERIF_SEED-chosen shape per kind")
+C02_BOUNDS_T = C02_BOUNDS_Q.replace("+ 1 VERIF_SEED-chosen shape per kind", "+ 6 VERIF_SEED-chosen shapes per kind")
+PROPS["C02"] = {
+    "title": "Applying a legal move yields the correct successor position",
+    "groups": [dict(C02_GRP, only="^c02_", seeded_family=C02_FAM)],
+    "functions": ["chess_movegen::Board::{move_new,move_mut,move_into,move_unchecked,move_unchecked_mut,move_unchecked_into,xor}", "CastleRights::remove_for_sq + CASTLE_RIGHTS_PER_SQ", "RawBoard::{xor,piece_of,piece_of_unchecked}",
+                  "chess_lookup constants CASTLE_MOVES, PAWN_DOUBLE_MOVE, BACKRANK_BB, ROOK_CASTLE_*, PROMOTION_RANK (real)"],
+    "bounds_quick": C02_BOUNDS_Q, "bounds_thorough": C02_BOUNDS_T,
+    "outside": "enemy-king squares not selected in this run (128 shapes exist per kind; the thorough tier samples more, no tier runs all 768 = ~5 h); more than 8 aligned sliders; clocks at 65535; Display text of the successor",
+    "stubs": C02_STUBS, "assumptions": C02_ASSUME,
+    "level_text": "The real make-move code runs on a symbolic valid position and a symbolic (from,to,promotion) triple; the checked operation must accept exactly the triples the reference rules call legal, and every field of the result "
+                  "(all eight piece/colour sets, side to move, castling rights, en-passant marker, both clocks, hash delta) must equal the reference successor; the receiver is untouched. The three checked wrappers are separately shown to be pure gates "
+                  "over a free legality oracle (refusal leaves receiver/output slot bit-identical). The solver covers all placements and moves per shape at once - castling, en passant, promotions, rook captures on home squares are just values of the move.",
+    "level_note": "Histories are covered by induction: the c03_inc harnesses show V is closed under legal moves. Per query the enemy king's square is a constant (measured: fully symbolic exceeds 12 GB).",
+    "design_ref": "DESIGN.md section 4 C02",
+}
+PROPS["C03"] = {
+    "title": "Check, mate and draw status are right; incremental state never goes stale",
+    "groups": [dict(C02_GRP, only="^c03_", seeded_family=dict(C02_FAM, always={"*": [60], "update_pin_info": [4, 124]}))],
+    "functions": ["chess_movegen::Board::move_unchecked_into (incremental checkers/pinned: direct knight/pawn checks, promotion, en-passant, castling rook, aligned sliders loop)", "Board::update_pin_info (from scratch, used by parser and builder)",
+                  "Board::{in_check,state}", "reference pins/checkers (x-ray form) == ray-walking form"],
+    "bounds_quick": C02_BOUNDS_Q + "; from-scratch query: side to move and the MOVER's king square concrete (e1/White, e8/Black + 1 seeded), <= 8 enemy sliders on the king's rays; state(): emptiness of the move list, checkers, half-move clock all free",
+    "bounds_thorough": C02_BOUNDS_T + "; from-scratch query: 8 seeded king squares",
+    "outside": "shapes not selected (see C02); Display/Debug text renderings (core::fmt is not executed symbolically: all observers are functions of the fields, and every field of a moved board is shown equal to the from-scratch value); the link 'move list empty <=> no legal move' is C01 + C10",
+    "stubs": C02_STUBS + ["chess_movegen::Board::legals -> move list whose emptiness is a free boolean (state() classification query only)"], "assumptions": C02_ASSUME,
+    "level_text": "After every legal move of a symbolic valid position the incrementally maintained checkers and pinned sets are compared with from-scratch reference definitions on the successor (direct, discovered, castling-rook, promotion and en-passant-discovered checks are just values of the move; cover witnesses show they are inside the space), "
+                  "the from-scratch update_pin_info is compared with the same definitions, in_check() with 'king attacked', and state() with the classification table for all combinations of (no move, in check, clock). Closure of the validity predicate under legal moves is shown here too.",
+    "level_note": "Moved board == rebuilt board is decided field by field (placement/rights/ep/clocks in C02, hash in C02/C04, pinned/checkers here, parser side in C05/C06), not by rendering text.",
+    "design_ref": "DESIGN.md section 4 C03",
+}
+
 PROPS["LEM"] = {"title": "internal: F-level stubs == S-level geometry", "claimed": False,
                 "groups": [{"crate": "core", "module": "lemmas", "timeout_q": 600}]}
 
 # concretised (side to move, king square) index = turn*64 + square.  e1 = 4, e8 = 60.
 KING_ALWAYS = {"*": [], "king": [4, 64 + 60]}
 PROPS["C01"] = {
+    "claimed": False,
     "title": "Generated moves are exactly the legal moves of chess",
     "groups": [
         {"crate": "core", "module": "lemmas", "timeout_q": 600},
